@@ -259,6 +259,57 @@ theorem inverted_children_eq_direct (db : DB) (hu : IdsUnique db) (r : Rel) (q :
       exact ⟨p, (inverted_from_parents_pairs db r visit c p).mpr
         ⟨(hv p).mpr (List.mem_filter.mpr ⟨hpl, h⟩), (child_iff_points_to db r p c).mpr ⟨hcl, hfk⟩⟩⟩
 
+/-! ### conditions next to the one that drives the inverted join (the repaired defects b5ad122, a3f1f76, 0de542c) -/
+
+/-- a child-side request with a condition `q` on the parent AND a condition `own` on the child itself: visiting the
+    matching parents in index order and keeping, of the children referencing each, those that satisfy `own`, gives
+    exactly the children the direct evaluation gives — the child's own condition has to stay on the scan of the
+    children (b5ad122: it was replaced by the foreign-key condition alone) -/
+theorem inverted_children_with_own_condition (db : DB) (hu : IdsUnique db) (r : Rel) (q own : Doc → Bool)
+    (visit : List Doc) (hv : ∀ p, p ∈ visit ↔ p ∈ (live db r.parent).filter q) (c : Doc) :
+    (∃ p, (c, p) ∈ (invertedFromParents db r visit).filter (fun cp => own cp.1)) ↔
+      c ∈ (childrenWith db r q).filter own := by
+  constructor
+  · rintro ⟨p, h⟩
+    obtain ⟨hm, ho⟩ := List.mem_filter.mp h
+    exact List.mem_filter.mpr ⟨(inverted_children_eq_direct db hu r q visit hv c).mp ⟨p, hm⟩, ho⟩
+  · intro h
+    obtain ⟨hm, ho⟩ := List.mem_filter.mp h
+    obtain ⟨p, hp⟩ := (inverted_children_eq_direct db hu r q visit hv c).mpr hm
+    exact ⟨p, List.mem_filter.mpr ⟨hp, ho⟩⟩
+
+/-- the direct evaluation of a condition on the single related document when a missing related document reads as nil:
+    `qnil` says whether nil satisfies the condition (`_ne v`, `_nin`, `_nlike`, a null operand) -/
+def childrenWithNil (db : DB) (r : Rel) (q : Doc → Bool) (qnil : Bool) : List Doc :=
+  (live db r.child).filter (fun c => match parentOf db r c with
+    | some p => q p
+    | none => qnil)
+
+/-- when nil does not satisfy the condition, this is `childrenWith`, and the inverted join is exact -/
+theorem childrenWithNil_false (db : DB) (r : Rel) (q : Doc → Bool) :
+    childrenWithNil db r q false = childrenWith db r q := rfl
+
+/-- **a3f1f76**: when nil satisfies the condition, a child without a (live) parent belongs to the answer and is never
+    reached from the parents, whatever the visiting order: the planner must not invert the join for such a condition -/
+theorem inverted_join_misses_children_without_parent (db : DB) (r : Rel) (q : Doc → Bool) (visit : List Doc)
+    (c : Doc) (hc : c ∈ live db r.child) (hno : parentOf db r c = none)
+    (hsub : ∀ p, p ∈ visit → p ∈ live db r.parent) (hu : IdsUnique db) :
+    c ∈ childrenWithNil db r q true ∧ ¬ ∃ p, (c, p) ∈ invertedFromParents db r visit := by
+  refine ⟨List.mem_filter.mpr ⟨hc, by simp [hno]⟩, ?_⟩
+  rintro ⟨p, h⟩
+  obtain ⟨hp, hch⟩ := (inverted_from_parents_pairs db r visit c p).mp h
+  obtain ⟨_, hfk⟩ := (child_iff_points_to db r p c).mp hch
+  rw [parentOf_of_points hu (hsub p hp) hfk] at hno
+  cases hno
+
+/-- **0de542c**: every parent the inverted join yields comes with ALL its children, so an aggregate over the related
+    documents next to the relation filter counts what the direct evaluation counts -/
+theorem inverted_join_counts_all_children (db : DB) (hu : IdsUnique db) (r : Rel) (visit : List Doc)
+    (p : Doc) (kids : List Doc) (h : (p, kids) ∈ invertedFromChildren db r visit []) :
+    kids.length = (children db r p).length := by
+  obtain ⟨_, hk, _⟩ := ((inverted_join_parents db hu r visit).2 p kids).mp h
+  rw [hk]
+
 /-! ### one-to-one links -/
 
 theorem run_invariants (o : Nat → Bool) (col : Nat) (hoo : o col = true) (ops : List Op) :
@@ -296,6 +347,15 @@ example : (invertedFromChildren sampleDB ⟨0, 1⟩ [sampleDB[2], sampleDB[3], s
 
 example : (parentsWith sampleDB ⟨0, 1⟩ (fun c => c.x == some 4)).map (·.id) = [1] ∧
     (childrenWith sampleDB ⟨0, 1⟩ (fun p => p.name == "ann")).map (·.id) = [3] := by decide
+
+/-- the child without a parent (id 5) of the sample: `name != "ann"` read from the child side keeps it, the walk over the
+    parents called otherwise (bob) reaches only bob's children; and with a condition on the child's own `x` next to
+    the parent's name the inverted walk agrees with the direct evaluation -/
+example : (childrenWithNil sampleDB ⟨0, 1⟩ (fun p => p.name != "ann") true).map (·.id) = [2, 4, 5] ∧
+    (invertedFromParents sampleDB ⟨0, 1⟩ [sampleDB[1]]).map (fun cp => cp.1.id) = [2, 4] ∧
+    parentOf sampleDB ⟨0, 1⟩ sampleDB[5] = none ∧
+    ((invertedFromParents sampleDB ⟨0, 1⟩ [sampleDB[1]]).filter (fun cp => cp.1.x == some 4)).map (fun cp => cp.1.id) = [4] ∧
+    ((childrenWith sampleDB ⟨0, 1⟩ (fun p => p.name == "bob")).filter (fun c => c.x == some 4)).map (·.id) = [4] := by decide
 
 /-- a second holder of a one-to-one link is rejected on create and on relink -/
 example : (step (fun c => c == 1) [{ id := 0, col := 0 }, { id := 1, col := 1, fk := some 0 }]
